@@ -64,10 +64,7 @@ import importlib
 
 KINDS = {"arr": gen_arr}
 for _k in ("llist", "slist", "ht", "buf"):
-    try:
-        KINDS[_k] = importlib.import_module("opsgen_" + _k).gen_case
-    except ModuleNotFoundError:
-        pass
+    KINDS[_k] = importlib.import_module("opsgen_" + _k).gen_case
 
 
 def gen(rng, tier, n):
